@@ -36,3 +36,25 @@ def reset_library_globals() -> None:
     root = logging.getLogger()
     for h in list(root.handlers):
         root.removeHandler(h)
+
+
+class debug_logging:
+    """Context manager: the library runs with DEBUG logging effective (as with the CLI's --debug), output discarded.
+    Configuration matters: code guarded by isEnabledFor(DEBUG) or evaluated in log arguments only runs then."""
+
+    def __enter__(self):
+        self._lg = logging.getLogger("msmart")
+        self._old = (self._lg.level, self._lg.propagate, list(self._lg.handlers))
+        logging.disable(logging.NOTSET)
+        self._lg.setLevel(logging.DEBUG)
+        self._lg.propagate = False
+        self._h = logging.NullHandler()
+        self._lg.addHandler(self._h)
+        return self
+
+    def __exit__(self, *exc):
+        self._lg.removeHandler(self._h)
+        self._lg.setLevel(self._old[0])
+        self._lg.propagate = self._old[1]
+        logging.disable(logging.CRITICAL)
+        return False
